@@ -355,6 +355,12 @@ def generic_eq(a, b):
         ia, ib = getattr(a, "ident", None), getattr(b, "ident", None)
         if isinstance(a, SObj) and isinstance(b, SObj) and (a.fresh or b.fresh):
             return False  # identity comparison of distinct objects, one freshly allocated
+        if isinstance(a, SObj) and isinstance(b, SObj) and ia is not None and ib is not None \
+                and (a.fields.get("@eq_unknown") or b.fields.get("@eq_unknown")):
+            # objects whose dynamic class (and hence __eq__) is unknown: the result is an unconstrained function of the two
+            # identities, except that an object equals itself
+            f = z3.Function("DynEq", z3.IntSort(), z3.IntSort(), z3.BoolSort())
+            return SBool(z3.Or(ia == ib, f(ia, ib)))
         raise Unsupported(f"== between objects {a!r} and {b!r} needs the class's __eq__ contract")
     if type(a) != type(b) and _concrete(a) != _concrete(b):
         # e.g. symbolic int vs None/str
